@@ -178,11 +178,12 @@ func runJobs(w *lib.Writer, jobs []Job, outDir string) {
 			cur = -1
 		}
 		werr := cmd.Wait()
+		timedOut := ctx.Err() == context.DeadlineExceeded
 		cancel()
 		real, benign, other := raceReports(stderr.buf.String())
 		if cur != -1 {
 			what := "child process died"
-			if ctx.Err() != nil {
+			if timedOut {
 				what = "child process exceeded its time limit"
 			}
 			results[cur] = Result{ID: cur, Status: "crash", Msg: what + " (" + fmt.Sprint(werr) + "): " + trunc(other[cur], 1500)}
@@ -405,6 +406,22 @@ var totals = map[string]int{}
 func addCase(w *lib.Writer, j Job, r Result) {
 	id := w.NextID()
 	switch j.Kind {
+	case "make":
+		c := lib.Case{Input: j, KF: j.KF, Class: "make", Observed: map[string]any{"status": r.Status, "msg": trunc(r.Msg, 800), "make": r.Make}}
+		if r.Status == "ok" && r.Make != nil {
+			it := make([]string, len(r.Make.Sizes))
+			for i, n := range r.Make.Sizes {
+				it[i] = "(" + lib.CoqZ(n) + ", " + lib.CoqBool(r.Make.Ok[i]) + ")"
+			}
+			c.Coq = "CMake " + lib.CoqList(it) + " " + lib.CoqBool(r.Make.NeighbourOK)
+			c.Nontrivial = len(it) >= 3
+			w.Add(c)
+			return
+		}
+		c.Class += "-" + r.Status
+		c.Coq = failingTerm
+		w.Add(c)
+		w.GoFail(id, "channel.make run: "+r.Status+": "+trunc(r.Msg, 1200))
 	case "lib":
 		c := lib.Case{Input: j, KF: j.KF, Class: "lib", Observed: map[string]any{"status": r.Status, "msg": trunc(r.Msg, 800), "lib": r.Lib}}
 		if r.Status == "ok" && r.Lib != nil && r.Lib.Ref != "" {
